@@ -4,7 +4,11 @@ use serde_json::{json, Map, Value};
 use std::collections::{BTreeMap, HashSet};
 use std::time::Instant;
 
-pub const VERIF_DIR: &str = "/verif";
+/// Output root (evidence/, replays/, known_findings.json); `VERIF_DIR` overrides
+/// it for scratch copies of the harness.
+pub fn verif_dir() -> String {
+    std::env::var("VERIF_DIR").unwrap_or_else(|_| "/verif".to_string())
+}
 
 #[derive(Clone, Copy, PartialEq, Eq, Debug)]
 pub enum Tier {
@@ -136,10 +140,10 @@ impl Run {
         }
         self.violations += 1;
         let fname = format!("{}-{}.json", self.id, sanitize(sig));
-        let path = format!("{}/replays/{}", VERIF_DIR, fname);
+        let path = format!("{}/replays/{}", verif_dir(), fname);
         let body = json!({"property": self.id, "signature": sig, "what": what, "case": case,
             "tier": self.tier.name(), "seed": self.seed});
-        let _ = std::fs::create_dir_all(format!("{}/replays", VERIF_DIR));
+        let _ = std::fs::create_dir_all(format!("{}/replays", verif_dir()));
         let _ = std::fs::write(&path, serde_json::to_string_pretty(&body).unwrap());
         println!("VIOLATION property={} replay={}", self.id, path);
         eprintln!("  violation [{}]: {}", sig, what);
@@ -190,8 +194,8 @@ impl Run {
             "wall_s": wall,
             "violations": self.violations,
         });
-        let _ = std::fs::create_dir_all(format!("{}/evidence", VERIF_DIR));
-        let path = format!("{}/evidence/{}.json", VERIF_DIR, self.id);
+        let _ = std::fs::create_dir_all(format!("{}/evidence", verif_dir()));
+        let path = format!("{}/evidence/{}.json", verif_dir(), self.id);
         std::fs::write(&path, serde_json::to_string_pretty(&ev).unwrap()).expect("write evidence");
         eprintln!(
             "[{}] tier={} states={} transitions={} validated={} evals={} distinct={} violations={} known={} wall={:.1}s outcomes={:?}",
@@ -228,7 +232,7 @@ fn sig_matches(known: &str, sig: &str) -> bool {
 }
 
 fn load_known(id: &str) -> Vec<(String, String)> {
-    let path = format!("{}/known_findings.json", VERIF_DIR);
+    let path = format!("{}/known_findings.json", verif_dir());
     let Ok(s) = std::fs::read_to_string(&path) else { return vec![] };
     let Ok(v) = serde_json::from_str::<Value>(&s) else { return vec![] };
     let mut out = vec![];
